@@ -50,7 +50,8 @@ CLAIMED.update({
     'C11': dict(
         text='cif_parse() is loop-free: its contract - the documented version/encoding decision table as a pure expression of the options and the stream '
              'prefix - is proved for ALL option values and ALL first 16 bytes and stream lengths (complete). ICU behaviour and the second stage in '
-             'cif_parse_internal are assumed / not yet decided.',
+             'cif_parse_internal (version comment of the decoded text, CIF_WRONG_ENCODING report for any non-zero flag, BOM handling, option strings) is a second job '
+             'over ghost-chosen first characters and first token.',
         note='Trusted: CBMC; assumed contracts for fread/ferror/ICU converter API/cif_parse_internal (they record their arguments).', ref='5/C11'),
     'C14': dict(
         text='Per-level contracts on the real walker (walk_item, walk_packet, walk_loop, walk_loops; walk_container and cif_walk in progress), each enforced '
@@ -99,6 +100,20 @@ CLAIMED.update({
              'functions called only outside a skip, only with a target container and (items) only after CONTINUE. The loop productions and parse_cif are '
              'assumed balanced; callback order across productions and "reported = stored" are not decided.',
         note='Trusted: CBMC; token source and sub-productions by assumed contract; parse_container job is bounded (<= 3 tokens per container level).', ref='5/C15'),
+})
+
+CLAIMED.update({
+    'C01': dict(
+        text='Partial and bounded: decode_text - prefix / line-folding protocols and terminator normalisation of text fields - agrees with a reference decoder '
+             'written from the CIF 2.0 specification on ALL texts of up to 6 (quick) / 8 (thorough) code units, every 16-bit value per unit; no write outside '
+             'the output buffer. Scanner lexemes, parse_value coercions and the stored content are not decided.',
+        note='Bounded stand-in (one job per concrete length); trusted: CBMC, the reference decoder in the harness, models of value/ICU helpers.', ref='5/C01', category='other',
+        technique='CBMC bounded equivalence check of the real decode_text against an executable specification (complete unwinding per length)'),
+    'C06': dict(
+        text='Partial: cif_pktitr_close (COMMIT once, rollback on failure, all writes durable on success, iterator freed) and cif_pktitr_abort (ROLLBACK once, '
+             'never a COMMIT, nothing durable) are proved over a ghost model of SQLite transactions. The MISUSE / INVALID_HANDLE / remove contracts are written '
+             '(contracts/pktitr.h) but their jobs do not discharge within budget yet and are not registered. Packet enumeration is SQL and not decided.',
+        note='Trusted: CBMC; the SQLite transaction model of stubs/sqlite_model.h (meaning of commit / rollback assumed).', ref='5/C06'),
 })
 
 NOT_APPLICABLE = {
